@@ -130,6 +130,58 @@ Proof.
   cbn [sop_handle]; intros Hh; try (exfalso; apply Hh; reflexivity); eapply H; eassumption.
 Qed.
 
+(* joins see the allocator through is_alive of handles and entity(i) of indices *)
+Section JoinCong.
+  Variables (av1 av2 : aview) (hs : pvec entity).
+  Hypothesis Halive : forall k e, pv_get hs k = Some e -> av_alive av1 e = av_alive av2 e.
+  Hypothesis Hgen : forall i, av_cur_gen av1 i = av_cur_gen av2 i.
+
+  Lemma others_lookup_cong sid mutably l : forall env,
+    others_lookup av1 hs sid mutably l env = others_lookup av2 hs sid mutably l env.
+  Proof.
+    induction l as [|h l IH]; intros env; cbn [others_lookup]; [reflexivity|].
+    destruct (pv_get hs (N.of_nat h)) as [ent|] eqn:Eh; [|rewrite IH; reflexivity].
+    rewrite (Halive _ _ Eh). destruct (NS.mem (fst ent) (env_mask env sid) && av_alive av2 ent).
+    - destruct (env_jact env sid _) as [e1 t]. rewrite IH. reflexivity.
+    - rewrite IH. reflexivity.
+  Qed.
+
+  Lemma m_get_cong excl eids m i : forall env, m_get av1 hs excl eids m i env = m_get av2 hs excl eids m i env.
+  Proof.
+    induction m as [sid|sid touch d| |l|sid|m IH|sid mode selmod selrem d others|k mode d|sid]; intros env; cbn [m_get];
+      try reflexivity.
+    - rewrite Hgen. reflexivity.
+    - rewrite IH. reflexivity.
+    - destruct (env_jact env sid (JRead i)) as [e1 t]. rewrite others_lookup_cong. reflexivity.
+  Qed.
+
+  Lemma visit_members_cong excl eids ms i : forall env,
+    visit_members av1 hs excl eids ms i env = visit_members av2 hs excl eids ms i env.
+  Proof.
+    induction ms as [|m r IH]; intros env; cbn [visit_members]; [reflexivity|].
+    rewrite m_get_cong. destruct (m_get av2 hs excl eids m i env) as [e1 x]. rewrite IH. reflexivity.
+  Qed.
+
+  Lemma visit_keys_cong excl eids ms keys : forall env,
+    visit_keys av1 hs excl eids ms keys env = visit_keys av2 hs excl eids ms keys env.
+  Proof.
+    induction keys as [|i keys IH]; intros env; cbn [visit_keys]; [reflexivity|].
+    rewrite visit_members_cong. destruct (visit_members av2 hs excl eids ms i env) as [e1 x]. rewrite IH. reflexivity.
+  Qed.
+
+  Lemma env_join_cong env eids k ms : env_join env av1 eids hs k ms = env_join env av2 eids hs k ms.
+  Proof.
+    unfold env_join. destruct (negb (join_ok env k ms)); [reflexivity|].
+    destruct k as [lim|lim|n|h|i].
+    - destruct (jkeys env eids ms); [|reflexivity]. rewrite visit_keys_cong. reflexivity.
+    - destruct (jkeys env eids ms); [|reflexivity]. rewrite visit_keys_cong. reflexivity.
+    - destruct (jkeys env eids ms); [|reflexivity]. rewrite visit_keys_cong. reflexivity.
+    - destruct (pv_get hs (N.of_nat h)) as [ent|] eqn:Eh; [|reflexivity].
+      rewrite (Halive _ _ Eh), visit_members_cong. reflexivity.
+    - rewrite visit_members_cong. reflexivity.
+  Qed.
+End JoinCong.
+
 (* ------------------------------------------------------------------ *)
 (* building blocks *)
 
@@ -284,7 +336,7 @@ Theorem wstep_core_sim w sw o : RW w sw ->
   out' = out /\ RW w' sw'.
 Proof.
   intros HRW. pose proof HRW as [HR HI Hhs Hhl Hst Hok Henv Hhsok Hhlok].
-  destruct o as [cs|cs|n| |n|built cs|cs|h|hs|h| | |h|h| |h| |so| |lsid lh lv|lsid ll|lsid lh|prog|qso| ]; cbn [wstep_core sstep_core].
+  destruct o as [cs|cs|n| |n|built cs|cs|h|hs|h| | |h|h| |h| |so| |lsid lh lv|lsid ll|lsid lh|prog|qso|jk jms|cso| ]; cbn [wstep_core sstep_core].
   - (* OCreate *)
     pose proof (create_sim false w sw HRW) as X. destruct (w_create false w) as [w1 e]. cbn [choices_of map hd_choice].
     destruct (s_create false sw (fst e)) as [sw1 e']. destruct X as [-> [H [Hk _]]]. split; [reflexivity|].
@@ -390,6 +442,16 @@ Proof.
     rewrite (env_sop_cong (s_env sw) (a_view (w_alloc w)) (l_view (s_life sw)) (s_hs sw) qso)
       by (intros k e Hk; apply view_agree; eauto).
     cbn [choices_of]. split; [reflexivity|]. apply RW_env_update. assumption.
+  - (* OJoin *)
+    rewrite Henv, Hhs, (entities_ref _ _ [] HR HI).
+    rewrite (env_join_cong (a_view (w_alloc w)) (l_view (s_life sw)) (s_hs sw)).
+    + destruct (env_join (s_env sw) (l_view (s_life sw)) _ (s_hs sw) jk jms) as [e' j].
+      cbn [choices_of]. split; [reflexivity|]. apply RW_env_update. assumption.
+    + intros k e Hk. apply view_agree; eauto.
+    + intros i. cbn. apply (cur_gen_ref _ _ [] HR HI).
+  - (* OCs *)
+    rewrite Henv, Hhs. destruct (env_csop (s_env sw) (s_hs sw) cso) as [e' r].
+    split; [reflexivity|]. apply RW_env_update. assumption.
   - cbn [choices_of]. auto.
 Qed.
 
@@ -419,7 +481,7 @@ Proof.
   assert (forall e, entity_eqb e e = true) as He by (intros e; apply entity_eqb_eq; reflexivity).
   assert (forall l, ents_eqb l l = true) as Hl.
   { induction l as [|e l IH]; [reflexivity|]. cbn. rewrite He, IH. reflexivity. }
-  destruct x as [l|[[p g]|]|[g|]|b|l|l| | |r|o|n|l|l|r|v|l|k]; unfold wout_eqb; auto; try apply zlist_eqb_refl.
+  destruct x as [l|[[p g]|]|[g|]|b|l|l| | |r|o|n|l|l|r|v|l|k|j|l|l]; unfold wout_eqb; auto; try apply zlist_eqb_refl.
   - rewrite Nat.eqb_refl, Z.eqb_refl. reflexivity.
   - apply Z.eqb_refl.
   - destruct b; reflexivity.
